@@ -14,7 +14,7 @@
   `freeze()` allocate fresh numbers from the bag's counter `next`.  Python sets of nodes are lists here; every
   observable of the real code that depends on set iteration order is compared up to order by the harness.
 -/
-import CM.Model.Graph
+import CM.Model.VM
 import CM.Model.NameSet
 namespace CM
 
@@ -348,6 +348,20 @@ def Bag.getNode (b : Bag) (available : List BNode) (out : String) : FieldRes :=
 /-- `GraphCompiler.fields()` -/
 def Bag.fields (b : Bag) : Except CompileErr (List String) := do
   pure (names (← b.validate))
+
+/-! ### `TreeNode.from_edges` and `Graph(inputs, node)`: from a bag to the graph the VM runs -/
+
+/-- The graph compiled for the node `o`: the leaves first, then the outputs of the edges in a topological order;
+a node's index is its position.  (`GraphCompiler._compile` for a single name whose node is `o`.) -/
+def Bag.compileGraph (b : Bag) (o : BNode) : Graph :=
+  let order := (topoEdges b.edges).1
+  let outs := order.map (·.out)
+  let leaves := (edgeNodes b.edges ++ b.inputs ++ [o]).eraseDups.filter fun n => !outs.contains n
+  let nodeList := leaves ++ outs
+  let idx := fun (n : BNode) => nodeList.idxOf n
+  { nodes := leaves.map (fun n => ({ name := n.name, edge := none, parents := [] } : Node)) ++
+             order.map (fun e => ({ name := e.out.name, edge := some e.edge, parents := e.ins.map idx } : Node)),
+    inputs := b.inputs.map idx, output := idx o }
 
 /-! ### The hypothesis of the bag theorems, executable -/
 
